@@ -46,9 +46,13 @@ type Ctx struct {
 	Counters map[string]int
 	known    map[string]string // key -> description
 	cur      string            // current config name for obligations
+	override string            // thorough tier: configuration analysed in place of amd64
 }
 
 func (c *Ctx) Prog(cfg string) *Program {
+	if c.override != "" && cfg == "amd64" {
+		cfg = c.override
+	}
 	if p, ok := c.progs[cfg]; ok {
 		return p
 	}
@@ -226,8 +230,8 @@ func (c *Ctx) finish(seed int, start time.Time, evidencePath string) int {
 		samples = append(samples, o)
 	}
 	expl := "Static analysis of /repo's current working tree (go/packages + go/ssa, never executing circl code). " +
-		"DECIDED (necessary-condition clauses only): " + strings.Join(c.Clauses, "; ") +
-		". NOT DECIDED: " + strings.Join(c.NotDec, "; ") + "."
+		"DECIDED (necessary-condition clauses only): " + strings.Join(uniqStrings(c.Clauses), "; ") +
+		". NOT DECIDED: " + strings.Join(uniqStrings(c.NotDec), "; ") + "."
 	cov := map[string]interface{}{
 		"explanation":         expl,
 		"obligations":         len(c.Obls),
@@ -272,4 +276,16 @@ func (c *Ctx) finish(seed int, start time.Time, evidencePath string) int {
 	}
 	fmt.Printf("OK property=%s (%.1fs)\n", c.Prop, time.Since(start).Seconds())
 	return 0
+}
+
+func uniqStrings(in []string) []string {
+	seen := map[string]bool{}
+	var out []string
+	for _, s := range in {
+		if !seen[s] {
+			seen[s] = true
+			out = append(out, s)
+		}
+	}
+	return out
 }
